@@ -130,15 +130,20 @@ impl Place {
 
 /// Pattern flag: the bitwise complement of the base pattern (so the two patterns differ in every component).
 pub const COMPLEMENT: u64 = 1 << 63;
+/// Pattern flag: float sentinels are NaN / +inf / -inf (a kernel that loads a neighbour of the view and cancels it with a
+/// zero coefficient turns them into NaN results); integer sentinels are unaffected.
+pub const NONFINITE: u64 = 1 << 62;
 
 pub fn sentinel_at<P: Px>(pattern: u64, i: usize) -> P {
     let compl = pattern & COMPLEMENT != 0;
-    let base = pattern & !COMPLEMENT;
+    let nonfinite = pattern & NONFINITE != 0;
+    let base = pattern & !COMPLEMENT & !NONFINITE;
     let c: Vec<P::C> = (0..P::NC)
         .map(|ch| {
             let r = mix(base ^ ((i * P::NC + ch) as u64).wrapping_mul(0x9E37_79B9_7F4A_7C15));
             match P::kind() {
                 // finite floats of moderate size
+                CompKind::F32 if nonfinite => P::C::from_bits([0x7fc0_0000u64, 0x7f80_0000, 0xff80_0000, 0x7fc0_0001][(r % 4) as usize]),
                 CompKind::F32 => P::C::from_f64(((r % 2_000_001) as f64 - 1_000_000.0) * 0.125 + if compl { 0.0625 } else { 0.0 }),
                 _ => P::C::from_bits(if compl { !r } else { r }),
             }
